@@ -25,8 +25,8 @@ META = re.compile(r"[<>&\"']")
 
 EDGE_CHARS = ["\x01", "\x0b", "\x1f", "\ufffe", "\uffff", "\x00", "\x08", "\x0c"]
 EDGE_HEADERS = ["bind::1x", "bind::a b", "body::", "body::x y", "instance::9", "bind::foo:bar", "body::zz:q", "instance::nope:x", "bind::a:b:c",
-                "bind:::foo", "body:::foo", "instance:::foo", "body::tag", "body::xmlns:q", "bind::xml:lang", "instance::xmlns", "body::ref", "bind::nodeset"]
-EDGE_SETTINGS = ["attribute::", "attribute::p:q", "attribute::1a", "attribute::a b", "attribute::und:x", "attribute:::foo", "attribute::xmlns:zz", "attribute::xmlns"]
+                "bind:::foo", "body:::foo", "instance:::foo", "body::tag", "body::xmlns:q", "bind::xml:lang", "instance::xmlns", "body::ref", "bind::nodeset", "bind::xmlns:xml", "body::xmlns:xmlns", "instance::xmlns:zz"]
+EDGE_SETTINGS = ["attribute::xmlns:xml", "attribute", "attribute::p:q", "attribute::1a", "attribute::a b", "attribute::und:x", "attribute:::foo", "attribute::xmlns:zz", "attribute::xmlns"]
 EDGE_NAMESPACES = ["foo=", 'foo=""', 'ok="http://ok.example" bad=', "=http://x", 'a="http://a" a="http://b"', 'xmlns="http://example.com/x"',
                    'xml="http://example.com/x"', 'foo="http://www.w3.org/2000/xmlns/"', 'foo="http://www.w3.org/XML/1998/namespace"',
                    'q="http://example.org/ns?version=1"', 'a="http://a.example/<b>"', 'a="http://a.example/&amp;"', "1a=http://x.example", "a:b=http://x.example"]
@@ -50,13 +50,18 @@ def _cases(draw):
     if g.p("_", 0.08):
         # edge probes: inputs a user can type that XML cannot carry as they are; the outcome must be a well-formed result or a rejection
         qs = [n for n, _ in model.walk(form["nodes"]) if n["k"] == "q" and n["c"].get("type", "").split(" ")[0] in ("text", "integer", "note", "select_one")]
-        kind = g.pick(["char", "header", "setting", "namespaces", "name"])
+        kind = g.pick(["char", "header", "setting", "namespaces", "name", "instance-xmlns"])
         if kind == "char" and qs:
             n = g.pick(qs)
             cols = [k for k in n["c"] if k.split("::")[0] in ("label", "hint", "constraint_message", "default")] or ["label"]
             col = g.pick(cols)
             n["c"][col] = (n["c"].get(col) or "t") + g.pick(EDGE_CHARS) + "z"
             edge = "illegal-char"
+        elif kind == "instance-xmlns":
+            form.setdefault("settings", {})["instance_xmlns"] = g.pick(["http://www.w3.org/XML/1998/namespace", "http://www.w3.org/2000/xmlns/", "http://a.example/100%",
+                                                                       "http://a.example/ns[1]", "http://a.example:port/", "http://a.example/#a#b", "http://a.example/é",
+                                                                       "http://ok.example/x?y=1&z=%20", "urn:x:y"])
+            edge = "instance-xmlns"
         elif kind == "namespaces":
             form.setdefault("settings", {})["namespaces"] = g.pick(EDGE_NAMESPACES)
             edge = "namespaces-setting"
@@ -69,7 +74,7 @@ def _cases(draw):
                 n["c"]["name"] = g.pick(EDGE_NAMES)
                 edge = "prefixed-name"
         elif kind == "header" and qs:
-            g.pick(qs)["c"][g.pick(EDGE_HEADERS)] = g.pick(["v", "my tag", "1st", "a<b", "select1"])
+            g.pick(qs)["c"][g.pick(EDGE_HEADERS)] = g.pick(["v", "my tag", "1st", "a<b", "select1", "http://www.w3.org/XML/1998/namespace", "http://x.example/100%"])
             edge = "attribute-header"
         else:
             form.setdefault("settings", {})[g.pick(EDGE_SETTINGS)] = "v"
@@ -85,8 +90,8 @@ def strategy(tier):
 
 
 def expected_form_id(form):
-    s = form.get("settings", {})
-    return s.get("form_id", s.get("id_string", "data"))
+    s = {"_".join(k.split()).lower(): v for k, v in form.get("settings", {}).items()}      # headers match in any case / spacing
+    return s.get("form_id") or s.get("id_string") or "data"
 
 
 def error_kind(msg: str) -> str:
